@@ -100,6 +100,7 @@ static void foreign(int n, const std::function<void(int)>& f) {
 static std::atomic<long> g_ran(0);
 static void inc() { g_ran.fetch_add(1, std::memory_order_relaxed); }
 static void nop() {}
+static void busy() { spin(30000); inc(); }     // a task that is still running when stop() is called
 
 static int g_iters = 1;
 static uint64_t g_seed = 1;
@@ -498,7 +499,7 @@ static void poolStopScenario(int calls) {
     std::atomic<bool> go(false);
     std::thread runner([&] {
       Rng r(g_seed, it, 1);
-      for (int j = 0; j < calls; ++j) { pool.run(std::bind(inc)); spin(r.below(2000)); if (j == calls / 4) go = true; }
+      for (int j = 0; j < calls; ++j) { pool.run(std::bind(busy)); spin(r.below(2000)); if (j == calls / 4) go = true; }
       go = true;
     });
     while (!go) sched_yield();
